@@ -957,6 +957,9 @@ def parse_for(fields, text, index, *cwd):
         sep += ','
     if fields['mode']['html']:
         s = html.unescape(s)
+        sep = html.unescape(sep)
+        if fsep is not None:
+            fsep = html.unescape(fsep)
     elements = []
     for n in range(start, stop + step // abs(step), step):
         if flags & 4:
@@ -982,6 +985,8 @@ def parse_foreach(writer, text, index, *cwd):
     except (NoParametersError, MissingParameterError) as e:
         raise MacroParsingError("No variable name: {}".format(text[index:e.args[1]]))
     entry_holder = writer.parser
+    if entry_holder.fields['mode']['html']:
+        values = [html.unescape(v) for v in values]
     if len(values) == 1:
         value = values[0]
         if value.startswith(('EREF', 'REF')):
@@ -1037,6 +1042,8 @@ def parse_foreach(writer, text, index, *cwd):
         fsep = sep
     if entry_holder.fields['mode']['html']:
         s = html.unescape(s)
+        sep = html.unescape(sep)
+        fsep = html.unescape(fsep)
     if len(values) == 1:
         retval = s.replace(var, values[0])
     else:
